@@ -74,8 +74,6 @@ Definition s_search calls (sch : list (choice unit)) (o : obs) : bool :=
 (* YAML: get_data is a read-only function of the file states at specification level: every result must be
    get_data_spec of ONE of the file states present during the run, non-decreasing along each thread; the
    post thread (the last one) must see the final state *)
-Fixpoint worlds_of (w : list nat) (envs : list nat) : list (list nat) :=
-  match envs with [] => [w] | e :: r => w :: worlds_of (bump e w) r end.
 Fixpoint first_match (r : R) (specs : list R) : option (list R) :=
   match specs with
   | [] => None
@@ -88,14 +86,20 @@ Fixpoint match_mono (rs : list R) (specs : list R) : bool :=
   end.
 Definition y_specs table tree w0 (sch : list (choice nat)) : list R :=
   map (fun w => flat (yspec (y_table table) (snapshot_of tree w))) (worlds_of w0 (envs_of sch)).
-Definition y_check table tree w0 (sch : list (choice nat)) (post : bool) (o : obs) : bool :=
-  let specs := y_specs table tree w0 sch in
+(* clause 1 (proved for the model): every answer is get_data_spec of a file state present during the run *)
+Definition y_member (specs : list R) (o : obs) : bool :=
+  forallb (forallb (fun r => existsb (r_eqb r) specs)) o.
+(* clause 2: along each thread the states answered for do not go back, and the post thread (the last
+   one) sees the final state *)
+Definition y_order (specs : list R) (post : bool) (o : obs) : bool :=
   forallb (fun rs => match_mono rs specs) o &&
   (if post then match rev o with
                 | last :: _ => forallb (fun r => r_eqb r (List.last specs [])) last
                 | [] => true
                 end
    else true).
+Definition y_check table tree w0 (sch : list (choice nat)) (post : bool) (o : obs) : bool :=
+  let specs := y_specs table tree w0 sch in y_member specs o && y_order specs post o.
 
 Local Open Scope string_scope.
 Definition is_exc (r : R) : bool := match r with 9 :: _ => true | _ => false end.
@@ -112,18 +116,26 @@ Definition holds (c : case) (o : obs) : list string :=
   | Cache capacity calls sch => if c_search capacity calls sch o then [] else blame o
   | Text contents badl ce calls sch => if t_search contents badl ce calls sch o then [] else blame o
   | Store calls sch => if s_search calls sch o then [] else blame o
-  | Yaml table tree w0 ncalls sch post => if y_check table tree w0 sch post o then [] else blame o
+  | Yaml table tree w0 ncalls sch post =>
+      let specs := y_specs table tree w0 sch in
+      (if y_member specs o then [] else blame o) ++
+      (if y_order specs post o then [] else ["program_order_and_final_state"])
   end.
 
-(* valid: the schedule runs every call to completion (it is the record of a complete run).  YAML cases are
-   not covered by C19_holds: their acceptance by the checker is verified at run time for every generated
-   case, and the logic is covered by the yaml_concurrent theorems. *)
+(* valid: the schedule runs every call to completion (it is the record of a complete run).  YAML cases: at
+   most one file change during the run (with more, even the fixed code can combine an old version of one
+   file with a new version of another); clause 1 (`linearizable`) is then PROVED for the model; that the
+   model also passes clause 2 (program order / final state) is a decidable side condition of the case,
+   checked at run time for every generated case, not proved. *)
 Definition valid (c : case) : Prop :=
   match c with
   | Cache capacity calls sch => all_done _ _ _ _ _ (c_run true (c_init capacity calls) sch) = true
   | Text contents badl ce calls sch => all_done _ _ _ _ _ (t_run contents badl ce true (t_init calls) sch) = true
   | Store calls sch => all_done _ _ _ _ _ (s_run (s_init calls) sch) = true
-  | Yaml _ _ _ _ _ _ => False
+  | Yaml table tree w0 ncalls sch post =>
+      length (envs_of sch) <= 1 /\
+      y_order (y_specs table tree w0 sch) post
+              (results _ _ _ _ _ (y_run table tree true (y_init w0 ncalls) sch)) = true
   end.
 
 (* ---------- sx ---------- *)
